@@ -108,6 +108,7 @@ type interpreter struct {
 	onces     map[*value]bool
 	noIfConv  bool
 	curFrame  *frame
+	fs        *fsState
 }
 
 // stack renders the interpreted call stack at the point of the last call entry.
